@@ -2,7 +2,7 @@
    The model threads the destination through: bytes the code does not write keep their
    previous value, so "whatever the destination previously contained" is part of the statement. *)
 From Coq Require Import ZArith List.
-From RTP Require Import Base.Res Base.ListX Model.RtpPacket Spec.Rfc3550 Proofs.C01_Roundtrip.
+From RTP Require Import Base.Res Base.ListX Model.RtpPacket Spec.Rfc3550 Proofs.C01_Roundtrip Proofs.C04_Compose.
 Import ListNotations.
 Open Scope Z_scope.
 
@@ -38,6 +38,25 @@ Proof.
   split; [exact (header_marshal_spec h Hh)|exact (header_marshal_to_spec h dst Hh Hsz)].
 Qed.
 Print Assumptions C04_header_exact.
+
+(* C04 composed with C01: the n bytes MarshalTo reports, written into any sufficient destination, parse back
+   to the packet; the destination keeps its length and everything beyond n *)
+Theorem C04_marshal_to_roundtrip : forall p dst, wf_packet p -> packet_marshal_size p <= zlen dst ->
+  exists out, packet_marshal_to p dst = Ok (out, packet_marshal_size p) /\
+    zlen out = zlen dst /\
+    drop (packet_marshal_size p) out = drop (packet_marshal_size p) dst /\
+    exists offs, packet_unmarshal_into empty_packet (take (packet_marshal_size p) out)
+                 = Ok (mkPktResult p (header_marshal_size (hdr p)) offs).
+Proof. exact marshal_to_roundtrip. Qed.
+Print Assumptions C04_marshal_to_roundtrip.
+
+(* "whatever the destination previously contained": two successful MarshalTo calls of one packet, into
+   destinations of any contents and lengths, report the same n and wrote the same n bytes *)
+Theorem C04_dst_independent : forall p d1 d2 o1 o2 n1 n2, wf_packet p ->
+  packet_marshal_to p d1 = Ok (o1, n1) -> packet_marshal_to p d2 = Ok (o2, n2) ->
+  n1 = n2 /\ take n1 o1 = take n2 o2.
+Proof. exact marshal_to_dst_independent. Qed.
+Print Assumptions C04_dst_independent.
 
 (* non-vacuity: a padded packet written into a dirty buffer *)
 Example C04_nonvacuous :
